@@ -25,6 +25,7 @@ MANIFEST = {
              'Correspondence through the public interface: Series/Frame/Index reindex, shift, fillna*, assign (iloc/loc/bloc/column/row), insert, '
              'from_concat, from_overlay, from_records/from_dict/from_items, row consolidation (iloc[row], values, transpose, iter_array), IndexGO.append/extend, '
              'Frame.assign.iloc[rows, cols](Frame) over value frames with columns of different dtypes/widths on every target layout, fillna_forward/backward(axis=1) across adjacent blocks of different dtype, '
+             'Frame.pivot_unstack over ragged/complete target orders (new columns that needed no fill keep the source dtype exactly), '
              'FrameGO grown column by column (setitem, extend with Series/Frame, extend_items) then every row route (values, iter_array/iter_tuple/iter_series axis 1, iloc[row], transpose, to_pairs(1)) '
              'over a 43-dtype x 57-element grid and every block layout, each case evaluated inside Coq against M (result dtype + which cells survive) and S '
              '(every stored cell is the supplied cell; untouched columns keep their dtype); kernel sweeps of resolve_dtype (47x47), dtype_from_element, '
@@ -1301,6 +1302,93 @@ def directional_cases(ctx):
                 if c is not None:
                     yield c
 
+
+# ------------------------------------------------------------------------------------------- pivot_unstack: ragged and complete targets
+PIVOT_SHAPES = {   # index labels (tree ordered), depth_level
+    'ragged-first': ([('x', 'a'), ('x', 'b'), ('x', 'c'), ('y', 'b'), ('y', 'c')], -1),
+    'ragged-last': ([('x', 'a'), ('x', 'b'), ('x', 'c'), ('y', 'a'), ('y', 'b')], -1),
+    'ragged-middle': ([('x', 'a'), ('x', 'b'), ('x', 'c'), ('y', 'a'), ('y', 'c')], -1),
+    'two-ragged-then-complete': ([('x', 'a'), ('x', 'c'), ('y', 'b'), ('y', 'c')], -1),
+    'all-complete': ([('x', 'a'), ('x', 'b'), ('y', 'a'), ('y', 'b')], -1),
+    'outer-ragged-first': ([('x', 'b'), ('x', 'c'), ('y', 'a'), ('y', 'b'), ('y', 'c')], 0),
+    'outer-ragged-last': ([('x', 'a'), ('x', 'b'), ('x', 'c'), ('y', 'b'), ('y', 'c')], 0),
+}
+PIVOT_INT = np.array([2**53 + 1, 2, 3, 2**60 + 1, 5], dtype=np.int64)
+PIVOT_FILLS = [float('nan'), 0, 1.5, 'xy', None, True, 2**53 + 1]
+
+
+def _elems_src(d, values):
+    z = Src.__new__(Src)
+    z.dtype, z.values, z.is_arr = np.dtype(d), list(values), False
+    return z
+
+
+def pivot_case(ctx, hd, fill, shape, layout, default_fill=False):
+    '''Frame.pivot_unstack: a new column that needed the fill value takes resolve_dtype(source dtype, fill dtype) once per missing cell;
+    a new column that needed no fill keeps the source column's dtype exactly; every cell is the source cell or the fill value.'''
+    sf = _sf()
+    labels, depth_level = PIVOT_SHAPES[shape]
+    n = len(labels)
+    h = host(hd)
+    c0 = np.array([h[i % 3] for i in range(n)], dtype=h.dtype) if h.dtype.kind != 'O' else _obj_array([h[i % 3] for i in range(n)])
+    c1 = PIVOT_INT[:n].copy()
+    for a in (c0, c1):
+        a.flags.writeable = False
+    if excluded_pair(c0.dtype.kind, kind_of_elem(fill)):
+        return None
+    desc = {'shape': shape, 'index': [list(l) for l in labels], 'depth_level': depth_level, 'columns': {'c0': f'{hd} {rp(c0.tolist() if c0.dtype.kind not in "Mm" else [str(x) for x in c0])}',
+            'c1': f'int64 {PIVOT_INT[:n].tolist()}'}, 'fill_value': 'default (nan)' if default_fill else rp(fill), 'layout': zoo.layout_str(layout),
+            'call': 'f.pivot_unstack(depth_level' + ('' if default_fill else ', fill_value=...') + ')'}
+    ragged_values = {0: [], 1: []}
+    try:
+        f = zoo.frame_from_columns([c0, c1], layout, columns=('c0', 'c1'), index=sf.IndexHierarchy.from_labels(labels))
+        r = f.pivot_unstack(depth_level) if default_fill else f.pivot_unstack(depth_level, fill_value=fill)
+        where = {tuple(l): i for i, l in enumerate(labels)}
+        groups = [g if isinstance(g, str) else g[0] for g in r.index.values.tolist()]
+        cols = []
+        for key in r.columns.values.tolist():
+            src_label, target = key[0], key[1]
+            j = 0 if src_label == 'c0' else 1
+            arr = (c0, c1)[j]
+            rows = [where.get((g, target) if depth_level == -1 else (target, g)) for g in groups]
+            missing = sum(1 for x in rows if x is None)
+            cells = [f'(FromElem {elem(arr[x])})' if x is not None else f'(FromElem {elem(fill)})' for x in rows]
+            obs = r[tuple(key)].values
+            if missing:
+                ragged_values[j] += [arr[x] for x in rows if x is not None]
+                cols.append(Col(f'(PSteps {dt(arr.dtype)} {lit.lst([elem(fill)] * missing)})', cells, obs))
+            else:
+                cols.append(Col(p_keep(arr.dtype), cells, obs, keep=arr.dtype))
+    except Exception as e:  # noqa
+        cols = e
+    # finding classes only from the cells that really meet the fill value (the ragged targets)
+    sources = [_elems_src(a.dtype, ragged_values[j]) for j, a in enumerate((c0, c1)) if ragged_values[j]]
+    if sources:
+        sources.append(E(fill))
+    return mk_case(ctx, 'api:pivot-unstack', 'pivot_unstack', desc, cols, sources, tags={'layout': zoo.layout_str(layout), 'shape': shape},
+                   nontrivial=shape != 'all-complete')
+
+
+PIVOT_FIXED = ['int64', 'bool', '<U1', '<U4', 'float32', 'int8', 'uint64', 'M8[D]', 'S4', 'object']
+
+
+def pivot_cases(ctx):
+    done = set()
+    for hd in PIVOT_FIXED:                      # default fill value over every shape and layout: always run
+        for shape in PIVOT_SHAPES:
+            for layout in zoo.layouts_for([host(hd).dtype, PIVOT_INT.dtype]):
+                done.add((hd, 0, shape, layout))
+                c = pivot_case(ctx, hd, float('nan'), shape, layout, default_fill=True)
+                if c is not None:
+                    yield c
+    grid = [(hd, k, shape) for hd in HOSTS_FRAME for k in range(len(PIVOT_FILLS)) for shape in PIVOT_SHAPES]
+    sel = grid if ctx.tier == 'thorough' else ctx.rng.sample(grid, ctx.n(40, 0))
+    for hd, k, shape in sel:
+        for layout in zoo.layouts_for([host(hd).dtype, PIVOT_INT.dtype]):
+            c = pivot_case(ctx, hd, PIVOT_FILLS[k], shape, layout)
+            if c is not None:
+                yield c
+
 # ------------------------------------------------------------------------------------------- FrameGO grown column by column
 def p_grown(ds):
     return f'(PGrown {dt(ds[0])} {lit.lst([dt(d) for d in ds[1:]])})'
@@ -1655,6 +1743,7 @@ def cases(ctx):
     yield from frame_elem_cases(ctx)
     yield from frame_arr_cases(ctx)
     yield from grown_cases(ctx)
+    yield from pivot_cases(ctx)
     yield from assign_frame_cases(ctx)
     yield from directional_cases(ctx)
     yield from iter_cases(ctx)
